@@ -20,7 +20,7 @@ class Edge:
         s.phony = False; s.restat = False; s.generator = False
         s.deps = ''; s.depfile = ''; s.hidden = []
         s.pool = ''; s.ver = 0; s.rsp = None; s.rspver = 0
-        s.dyndep = None; s.console = False; s.dd_at_rule = False
+        s.dyndep = None; s.console = False; s.dd_at_rule = False; s.bl = False
     @property
     def out0(s): return s.outs[0]
     def cmd(s):
@@ -80,13 +80,13 @@ class Graph:
         for e in s.edges:
             if e.phony: continue
             L.append('rule r%d' % e.idx)
-            L.append('  command = ' + e.cmd())
+            L.append('  command = ' + ('decoy%d' % e.idx if getattr(e, 'bl', False) else e.cmd()))
             if e.restat: L.append('  restat = 1')
             if e.generator: L.append('  generator = 1')
             if e.deps: L.append('  deps = ' + e.deps)
             if e.depfile: L.append('  depfile = ' + e.depfile)
             if e.rsp: L += ['  rspfile = ' + e.rsp, '  rspfile_content = ' + e.rspcontent()]
-            if e.dyndep and e.dd_at_rule and not e.pool: L.append('  dyndep = ' + e.dyndep)
+            if e.dyndep and e.dd_at_rule and not e.pool and not getattr(e, 'bl', False): L.append('  dyndep = ' + e.dyndep)
         for e in s.edges:
             outs = ' '.join(e.outs[:len(e.outs) - e.n_imp_out])
             if e.n_imp_out: outs += ' | ' + ' '.join(e.outs[len(e.outs) - e.n_imp_out:])
@@ -96,8 +96,9 @@ class Graph:
             if e.oo: l += ' || ' + ' '.join(e.oo)
             if e.vals: l += ' |@ ' + ' '.join(e.vals)
             L.append(l)
+            if getattr(e, 'bl', False) and not e.phony: L.append('  command = ' + e.cmd())   # build-level binding shadows the rule's
             if e.pool: L.append('  pool = ' + e.pool)
-            if e.dyndep and not (e.dd_at_rule and not e.pool): L.append('  dyndep = ' + e.dyndep)
+            if e.dyndep and not (e.dd_at_rule and not e.pool and not getattr(e, 'bl', False)): L.append('  dyndep = ' + e.dyndep)
         if s.defaults: L.append('default ' + ' '.join(s.defaults))
         return '\n'.join(L) + '\n'
 
@@ -182,6 +183,7 @@ def gen_graph(rnd, nedges, feat=None, wf_reads=True):
             if rnd.random() < f['orderonly'] and rest: e.oo = rnd.sample(rest, min(len(rest), rnd.randrange(1, 3)))
             e.restat = rnd.random() < f['restat']
             e.generator = rnd.random() < f['generator']
+            e.bl = rnd.random() < 0.15     # the real command is bound at build level, the rule carries a decoy
             if rnd.random() < f['deps'] and len(e.outs) - e.n_imp_out >= 1:
                 kind = rnd.choice(['gcc', 'msvc', 'depfile', 'gcc'])
                 if len(e.outs) > 1 and kind != 'depfile': kind = 'depfile' if rnd.random() < 0.5 else ''
